@@ -1,55 +1,160 @@
-(* C11 — property theorems only. Each is closed by `exact` of a lemma proved in Proofs/NsProofs.v,
-   or by kernel evaluation of a closed witness. *)
-From JV Require Import Lib.Base Model.Ns Model.NsRun Model.NsGuard Spec.NestedDict Spec.NestedDictRun
-  Gen.C11Clash Model.C11NsFixed Corr.C11Judge Proofs.NsProofs Proofs.C11MoreProofs Proofs.C11FixedProofs
-  Proofs.C11EqProofs.
+(* C11 — property theorems only. Each is closed by `exact` of a lemma proved in Proofs/*.v, or by kernel evaluation of
+   a closed witness.
+   PART 1 speaks about the CURRENT code: jsonargparse/_namespace.py after the repair b856eae
+   (fixes/C11-path-through-dict.patch), modelled by Model/C11NsFixed.v. There is NO path-through-dict guard any more.
+   PART 2 holds for any stored tree, whatever the code version (items, as_dict, ==).
+   PART 3 keeps the theorems about the model of the code BEFORE the repair (Model/Ns.v), names suffixed `_prefix`,
+   with path_through_dict_refuted as the regression witness of the repaired defect. *)
+From JV Require Import Lib.Base Model.Ns Model.NsRun Model.NsGuard Model.C11NsFixed Model.C11FixedGuard
+  Spec.NestedDict Spec.NestedDictRun Gen.C11Clash Corr.C11Judge
+  Proofs.NsProofs Proofs.C11MoreProofs Proofs.C11FixedProofs Proofs.C11EqProofs Proofs.C11FixedRefine.
 
-(* THE REFINEMENT. For ANY clash set and ANY history (no bound on its length, on the depth of keys
-   or on the size of values) of the operations
+(* ======================================= PART 1: the current code ======================================= *)
+
+(* THE REFINEMENT. For ANY clash set and ANY history (no bound on its length, on the depth of keys or on the size of
+   values) of the operations
        ns[k]=v, setattr(ns,k,v), ns[k], ns.get(k,d), k in ns, del ns[k], ns.pop(k,d),
        ns.update(v,k,only_unset) for a non-Namespace v, ns.clone(), items/keys/values(branches), ns.as_dict()
    starting from the empty Namespace, with
-     - key segments that do not start with U+200B (wf_key; keys the code rejects — a space, an empty
-       segment — are INCLUDED: model and spec must both fail and leave the state alone),
-     - Namespace values whose stored attribute names are what add_clash_mark produces (wf_val),
-     - no addressed path meeting a dict-valued leaf (the guard, class 1 = the known finding),
-   the model of jsonargparse.Namespace answers every step exactly as the nested dictionary does
-   (modulo removing the clash marks from what is shown to the user), and after every step the stored
-   __dict__ tree, seen through abs_d, IS the nested dictionary. *)
+     - key segments that do not start with U+200B (wf_key; keys the code rejects — a space, an empty segment — are
+       INCLUDED: model and spec must both fail and leave the state alone),
+     - values in stored form along every path (wf2: every Namespace reachable through Namespaces and dicts carries the
+       attribute names add_clash_mark produces; the keys of dicts are the user's and unconstrained),
+   the model of jsonargparse.Namespace answers every step exactly as the nested dictionary does (modulo removing the
+   clash marks from what is shown to the user), and after every step the stored __dict__ tree, seen through abs_d, IS
+   the nested dictionary. Dotted keys THROUGH dict-valued leaves (and through Namespaces stored inside dicts) are
+   included: reading, membership, deletion, pop, assignment (also creating intermediate levels inside a dict). *)
 Theorem ns_refines_dict :
   forall (clash : list str) (ops : list op),
-    hist_class clash ops = 0%N ->
-    Forall2 rel_out (fst (run_model clash [] ops)) (run_spec [] ops).
-Proof. exact ns_refines_dict_proof. Qed.
+    hist_class_fx clash ops = 0%N ->
+    Forall2 rel_out (run_fixed clash [] ops) (run_spec [] ops).
+Proof. exact ns_refines_dict_fx_proof. Qed.
 Print Assumptions ns_refines_dict.
 
-(* what class 0 says, spelled out *)
+(* what class 0 says, spelled out: only well-formedness and the proved core of operations *)
 Theorem hist_class_0_means :
   forall clash ops,
-    hist_class clash ops = 0%N <->
-    snd (run_model clash [] ops) = false /\
-    forallb (wf_op clash) ops = true /\ forallb core_op ops = true.
-Proof. exact hist_class_0_iff. Qed.
+    hist_class_fx clash ops = 0%N <->
+    forallb (wf_op_fx clash) ops = true /\ forallb core_op ops = true.
+Proof. exact hist_class_fx_0. Qed.
 Print Assumptions hist_class_0_means.
 
 (* one step, from ANY well-formed stored tree (not only from states reachable from empty) *)
 Theorem step_commutes :
   forall clash root o,
-    wf_val clash (VNs root) = true -> wf_op clash o = true -> core_op o = true ->
-    forall ou r, step_model clash root o = (ou, r, false) ->
-      step_spec (abs_d root) o = (unmark_out ou, abs_d r) /\ wf_val clash (VNs r) = true.
-Proof. exact NsProofs.step_commutes. Qed.
+    wf2 clash (VNs root) = true -> wf_op_fx clash o = true -> core_op o = true ->
+    forall ou r md, step_fixed clash root o = (ou, r, md) ->
+      step_spec (abs_d root) o = (unmark_out ou, abs_d r) /\ wf2 clash (VNs r) = true.
+Proof. exact step_commutes_fx. Qed.
 Print Assumptions step_commutes.
 
 (* the same from any well-formed start state, for histories *)
 Theorem ns_refines_dict_from :
   forall clash ops root,
-    wf_val clash (VNs root) = true ->
-    forallb (wf_op clash) ops = true -> forallb core_op ops = true ->
-    snd (run_model clash root ops) = false ->
-    Forall2 rel_out (fst (run_model clash root ops)) (run_spec (abs_d root) ops).
-Proof. exact run_refines. Qed.
+    wf2 clash (VNs root) = true ->
+    forallb (wf_op_fx clash) ops = true -> forallb core_op ops = true ->
+    Forall2 rel_out (run_fixed clash root ops) (run_spec (abs_d root) ops).
+Proof. exact run_refines_fx. Qed.
 Print Assumptions ns_refines_dict_from.
+
+(* one dotted string = step by step, for keys of ANY depth and THROUGH dict values, with no hypothesis on the tree:
+   reading s1.s2.....sn as one dotted string is reading ns[s1][s2]...[sn], whenever the segments are names
+   (no dot, no space, not empty, not starting with the clash mark) *)
+Theorem dotted_eq_stepwise :
+  forall clash a rest root,
+    seg_ok2 a = true -> forallb seg_ok2 rest = true ->
+    ns_get_steps clash (join_segs a rest) root = fx_getitem clash (join_segs a rest) root.
+Proof. exact stepwise_eq_dotted_fx_proof. Qed.
+Print Assumptions dotted_eq_stepwise.
+
+(* names that coincide with Namespace's own attributes are stored and returned like any other: the user-visible
+   outputs and dictionaries do not depend on the clash set at all *)
+Theorem clash_names_transparent :
+  forall c1 c2 ops,
+    hist_class_fx c1 ops = 0%N -> hist_class_fx c2 ops = 0%N ->
+    Forall2 (fun m1 m2 : out * alist =>
+               unmark_out (fst m1) = unmark_out (fst m2) /\ abs_d (snd m1) = abs_d (snd m2))
+            (run_fixed c1 [] ops) (run_fixed c2 [] ops).
+Proof. exact clash_names_transparent_fx_proof. Qed.
+Print Assumptions clash_names_transparent.
+
+(* a failing operation leaves the Namespace as it was (update(namespace) has no rollback and is excluded) — no
+   well-formedness needed *)
+Theorem failed_op_changes_nothing :
+  forall clash root o r md,
+    match o with OUpdNs _ _ _ => False | _ => True end ->
+    step_fixed clash root o = (OutFail, r, md) -> r = root.
+Proof. exact failed_op_changes_nothing_fx_proof. Qed.
+Print Assumptions failed_op_changes_nothing.
+
+(* ---- the hypotheses are satisfiable by a non-trivial history (with dict-valued leaves) ------------------- *)
+Definition s_a : str := [97]%N.
+Definition s_b : str := [98]%N.
+Definition s_c : str := [99]%N.
+Definition s_items : str := [105;116;101;109;115]%N.
+Definition s_a_b : str := s_a ++ DOT :: s_b.
+Definition s_a_items : str := s_a ++ DOT :: s_items.
+Definition s_a_b_items : str := s_a ++ DOT :: s_b ++ DOT :: s_items.
+Definition s_a_c_items : str := s_a ++ DOT :: s_c ++ DOT :: s_items.
+Definition s_bad : str := s_a ++ DOT :: DOT :: s_b.
+
+Definition example_history : list op :=
+  [ OSet s_a (VDict [(s_b, VInt 1); (s_items, VInt 2)]);      (* a = {'b': 1, 'items': 2}: a dict-valued leaf *)
+    OGet s_a_b; OContains s_a_items;                         (* read / membership THROUGH the dict *)
+    OSet s_a_items (VInt 3);                                 (* clash name inside the dict: stored without mark *)
+    OSet s_a_c_items (VNs [(ZW :: s_items, VList [VInt 4])]);   (* creates {'c': {...}} inside; a Namespace in a dict *)
+    OGet (s_a_c_items ++ DOT :: s_items);                    (* through dict, dict, Namespace *)
+    OPop s_a_b (VInt 9); ODel s_a_items; OGetD s_a_b (VInt 9);
+    OSetAttr s_items (VNs [(ZW :: s_items, VInt 5)]);
+    OUpdV (VStr s_b) (Some s_a_b_items) true;
+    OSet s_bad (VInt 0);                                     (* rejected key: both fail *)
+    OItems true; OAsDict; ODel s_a; OGet s_a; OClone ].
+
+Example hypotheses_satisfiable : hist_class_fx clash_names example_history = 0%N.
+Proof. vm_compute. reflexivity. Qed.
+
+Example example_is_nontrivial :
+  map fst (run_spec [] example_history) =
+  [ OutUnit; OutVal (VInt 1); OutBool true; OutUnit; OutUnit; OutVal (VList [VInt 4]);
+    OutVal (VInt 1); OutUnit; OutVal (VInt 9); OutUnit; OutUnit; OutFail;
+    OutItems [ (s_a, VDict [ (s_c, VDict [(s_items, VNs [(s_items, VList [VInt 4])])]);
+                             (s_b, VDict [(s_items, VStr s_b)]) ]);
+               (s_items, VNs [(s_items, VInt 5)]);
+               (s_items ++ DOT :: s_items, VInt 5) ];
+    OutVal (VDict [ (s_a, VDict [ (s_c, VDict [(s_items, VNs [(s_items, VList [VInt 4])])]);
+                                  (s_b, VDict [(s_items, VStr s_b)]) ]);
+                    (s_items, VDict [(s_items, VInt 5)]) ]);
+    OutUnit; OutFail; OutBool true ].
+Proof. vm_compute. reflexivity. Qed.
+
+(* the hypotheses of dotted_eq_stepwise hold for a three-segment key through a dict and a clash name *)
+Example stepwise_hypotheses_satisfiable :
+  let root := [(s_a, VDict [(s_b, VNs [(ZW :: s_items, VInt 5)])])] in
+  seg_ok2 s_a = true /\ forallb seg_ok2 [s_b; s_items] = true /\
+  join_segs s_a [s_b; s_items] = s_a_b_items /\
+  ns_get_steps clash_names s_a_b_items root = Ok (VInt 5) /\
+  fx_getitem clash_names s_a_b_items root = Ok (VInt 5).
+Proof. vm_compute. repeat split; reflexivity. Qed.
+
+(* the witness of path_through_dict_refuted (PART 3) on the current code: ns['a']={'b':1}; ns['a.b'] reads 1 *)
+Example fixed_repairs_witness :
+  map fst (run_fixed clash_names [] [OSet s_a (VDict [(s_b, VInt 1)]); OGet s_a_b])
+  = [OutUnit; OutVal (VInt 1)] /\
+  fx_ok [OSet s_a (VDict [(s_b, VInt 1)]); OGet s_a_b] = true.
+Proof. vm_compute. split; reflexivity. Qed.
+
+(* a kernel-evaluated finite product that predates the general proof and is kept as an independent cross-check of
+   Model/C11NsFixed.v against the spec with operations OUTSIDE the proved core too (Namespace(dict),
+   update(namespace), step-by-step get): every history of length <= 2 over the 73 operations fx_ops and every history
+   of length 3 that starts by storing a dict (fx_firsts). fx_ok compares outputs and whole states. *)
+Theorem fixed_refines_through_dicts :
+  (forall a, In a fx_ops -> fx_ok [a] = true) /\
+  (forall a b, In a fx_ops -> In b fx_ops -> fx_ok [a; b] = true) /\
+  (forall a b c, In a fx_firsts -> In b fx_ops -> In c fx_ops -> fx_ok [a; b; c] = true).
+Proof. exact fixed_refines_through_dicts_proof. Qed.
+Print Assumptions fixed_refines_through_dicts.
+
+(* ============================= PART 2: any stored tree, any version of the code ============================= *)
 
 (* the judge compares states as values: that is the same comparison *)
 Theorem abs_state_is_unmarked_tree :
@@ -57,126 +162,22 @@ Theorem abs_state_is_unmarked_tree :
 Proof. exact abs_is_unmark. Qed.
 Print Assumptions abs_state_is_unmarked_tree.
 
-(* items(branches) of any well-formed tree are the items of the nested dictionary (keys()/values()
-   are its projections), for values of any depth *)
+(* items(branches) of any tree in stored form are the items of the nested dictionary (keys()/values() are its
+   projections), for values of any depth; dict-valued leaves are leaves *)
 Theorem items_agree :
   forall clash br root,
-    wf_val clash (VNs root) = true ->
+    wf2 clash (VNs root) = true ->
     map (fun kv => (fst kv, unmark_val (snd kv))) (ns_items br root) = spec_items br (abs_d root).
-Proof. exact items_agree_proof. Qed.
+Proof. exact items_agree_fx_proof. Qed.
 Print Assumptions items_agree.
 
-(* one dotted string = step by step, on the model itself: ns['a.rest'] is ns['a']['rest'] when
-   ns['a'] is a Namespace and fails when ns['a'] is absent or a non-dict leaf. (When ns['a'] is a
-   dict the two differ: the known finding.) *)
-Theorem dotted_eq_stepwise :
-  forall clash a rest root,
-    mem_N DOT a = false -> mem_N SPACE a = false -> is_empty a = false ->
-    match ns_getitem clash a root with
-    | Ok (VNs d') => ns_getitem clash (a ++ DOT :: rest) root = ns_getitem clash rest d'
-    | Ok (VDict _) => True
-    | _ => ns_getitem clash (a ++ DOT :: rest) root = Fail
-    end.
-Proof. exact dotted_eq_stepwise_proof. Qed.
-Print Assumptions dotted_eq_stepwise.
-
-(* the same for keys of ANY depth: reading s1.s2.....sn as one dotted string is reading ns[s1][s2]...[sn] step by
-   step, whenever the segments are names (no dot, no space, not empty) and the path does not pass through a
-   dict-valued leaf (there the two differ on the pinned code: the known finding) *)
-Theorem stepwise_eq_dotted :
-  forall clash a rest root,
-    seg_ok a = true -> forallb seg_ok rest = true ->
-    meets_dict clash (join_segs a rest) root = false ->
-    ns_get_steps clash (join_segs a rest) root = ns_getitem clash (join_segs a rest) root.
-Proof. exact stepwise_eq_dotted_proof. Qed.
-Print Assumptions stepwise_eq_dotted.
-
-(* as_dict of ANY stored tree (no well-formedness, no guard) is the nested dictionary itself, Namespaces held in
-   list / dict values included *)
+(* as_dict of ANY stored tree (no well-formedness) is the nested dictionary itself, Namespaces held in list / dict
+   values included *)
 Theorem as_dict_agrees :
   forall root, unmark_val (ns_as_dict root) = spec_as_dict (abs_d root).
 Proof. exact as_dict_agrees_proof. Qed.
 Print Assumptions as_dict_agrees.
 
-(* names that coincide with Namespace's own attributes are stored and returned like any other:
-   the user-visible outputs and dictionaries do not depend on the clash set at all *)
-Theorem clash_names_transparent :
-  forall c1 c2 ops,
-    hist_class c1 ops = 0%N -> hist_class c2 ops = 0%N ->
-    Forall2 (fun m1 m2 : out * alist =>
-               unmark_out (fst m1) = unmark_out (fst m2) /\ abs_d (snd m1) = abs_d (snd m2))
-            (fst (run_model c1 [] ops)) (fst (run_model c2 [] ops)).
-Proof. exact clash_names_transparent_proof. Qed.
-Print Assumptions clash_names_transparent.
-
-(* a failing operation leaves the Namespace as it was (update(namespace) has no rollback and is
-   excluded) — no guard, no well-formedness needed *)
-Theorem failed_op_changes_nothing :
-  forall clash root o r md,
-    match o with OUpdNs _ _ _ => False | _ => True end ->
-    step_model clash root o = (OutFail, r, md) -> r = root.
-Proof. exact failed_op_changes_nothing_proof. Qed.
-Print Assumptions failed_op_changes_nothing.
-
-(* ---- the hypotheses are satisfiable by a non-trivial history ----------------------------- *)
-Definition s_a : str := [97]%N.
-Definition s_b : str := [98]%N.
-Definition s_items : str := [105;116;101;109;115]%N.
-Definition s_a_items : str := s_a ++ DOT :: s_items.
-Definition s_a_b_items : str := s_a ++ DOT :: s_b ++ DOT :: s_items.
-Definition s_bad : str := s_a ++ DOT :: DOT :: s_b.
-
-Definition example_history : list op :=
-  [ OSet s_a (VInt 1);                                   (* a = 1 *)
-    OSet s_a_items (VInt 2);                             (* scalar parent replaced by a branch; clash name *)
-    OSetAttr s_items (VNs [(ZW :: s_items, VList [VInt 3])]);   (* a Namespace value with a marked name *)
-    OGet s_a_items; OContains s_a_b_items; OGetD s_b (VInt 9);
-    OUpdV (VStr s_b) (Some s_a_b_items) true;
-    OSet s_bad (VInt 0);                                 (* rejected key: both fail *)
-    OItems true; OAsDict; OPop s_a_items (VInt 9); ODel s_a; OGet s_a; OClone ].
-
-Example hypotheses_satisfiable : hist_class clash_names example_history = 0%N.
-Proof. vm_compute. reflexivity. Qed.
-
-Example example_is_nontrivial :
-  map fst (run_spec [] example_history) =
-  [ OutUnit; OutUnit; OutUnit; OutVal (VInt 2); OutBool false; OutVal (VInt 9); OutUnit; OutFail;
-    OutItems [ (s_a, VNs [(s_items, VInt 2); (s_b, VNs [(s_items, VStr s_b)])]);
-               (s_a_items, VInt 2);
-               (s_a ++ DOT :: s_b, VNs [(s_items, VStr s_b)]);
-               (s_a_b_items, VStr s_b);
-               (s_items, VNs [(s_items, VList [VInt 3])]);
-               (s_items ++ DOT :: s_items, VList [VInt 3]) ];
-    OutVal (VDict [ (s_a, VDict [(s_items, VInt 2); (s_b, VDict [(s_items, VStr s_b)])]);
-                    (s_items, VDict [(s_items, VList [VInt 3])]) ]);
-    OutVal (VInt 2); OutUnit; OutFail; OutBool true ].
-Proof. vm_compute. reflexivity. Qed.
-
-(* the hypotheses of stepwise_eq_dotted hold for a three-segment key with a clash name that reads a value *)
-Example stepwise_hypotheses_satisfiable :
-  let root := [(s_a, VNs [(s_b, VNs [(ZW :: s_items, VInt 5)])])] in
-  seg_ok s_a = true /\ forallb seg_ok [s_b; s_items] = true /\
-  join_segs s_a [s_b; s_items] = s_a_b_items /\
-  meets_dict clash_names s_a_b_items root = false /\
-  ns_get_steps clash_names s_a_b_items root = Ok (VInt 5).
-Proof. vm_compute. repeat split; reflexivity. Qed.
-
-(* ---- the known finding: outside the guard the refinement FAILS --------------------------- *)
-(* ns['a'] = {'b': 1}; ns['a.b']  — the nested dictionary answers 1, the Namespace raises *)
-Lemma path_through_dict_refuted :
-  exists ops,
-    forallb (wf_op clash_names) ops = true /\ forallb core_op ops = true /\
-    hist_class clash_names ops = 1%N /\
-    ~ Forall2 rel_out (fst (run_model clash_names [] ops)) (run_spec [] ops).
-Proof.
-  exists [OSet s_a (VDict [(s_b, VInt 1)]); OGet (s_a ++ DOT :: s_b)].
-  repeat split; try (vm_compute; reflexivity).
-  intros H. inversion H as [|? ? ? ? _ H2]; subst. inversion H2 as [|? ? ? ? [H3 _] _]; subst.
-  vm_compute in H3. discriminate H3.
-Qed.
-Print Assumptions path_through_dict_refuted.
-
-(* ---- equality -------------------------------------------------------------------------------------------- *)
 (* Python's == on two stored trees (argparse's Namespace.__eq__: equality of __dict__; dict equality does not see
    insertion order; a Namespace never equals a dict, a list never a tuple) is == on the user-visible nested
    dictionaries, for ANY clash set and ANY two values whose Namespaces — at every depth, also inside lists, tuples
@@ -198,22 +199,88 @@ Example eq_hypotheses_satisfiable :
   py_eq x y = true /\ py_eq (unmark_val x) (unmark_val y) = true /\ py_eq x z = false.
 Proof. vm_compute. repeat split; reflexivity. Qed.
 
-(* ---- the repaired code (fixes/C11-path-through-dict.patch, Model/C11NsFixed.v) ------------------------------ *)
-(* On histories THROUGH dict-valued leaves the model of the patched code answers exactly as the nested dictionary:
-   kernel-evaluated finite product — every history of length <= 2 over the 73 operations fx_ops (set of dicts /
-   namespaces holding dicts / scalars, get, contains, del, pop, get-default, step-by-step get, update(only_unset)
-   on keys of depth 1-3 with clash names, setattr, items, as_dict, Namespace(dict), update(namespace)) and every
-   history of length 3 that starts by storing a dict (fx_firsts). fx_ok compares outputs and whole states. *)
-Theorem fixed_refines_through_dicts :
-  (forall a, In a fx_ops -> fx_ok [a] = true) /\
-  (forall a b, In a fx_ops -> In b fx_ops -> fx_ok [a; b] = true) /\
-  (forall a b c, In a fx_firsts -> In b fx_ops -> In c fx_ops -> fx_ok [a; b; c] = true).
-Proof. exact fixed_refines_through_dicts_proof. Qed.
-Print Assumptions fixed_refines_through_dicts.
+(* ========================= PART 3: the code BEFORE the repair (Model/Ns.v), kept ========================= *)
+(* The refinement held only under the guard "no addressed path meets a dict-valued leaf" (hist_class = 0). *)
+Theorem ns_refines_dict_prefix :
+  forall (clash : list str) (ops : list op),
+    hist_class clash ops = 0%N ->
+    Forall2 rel_out (fst (run_model clash [] ops)) (run_spec [] ops).
+Proof. exact ns_refines_dict_proof. Qed.
+Print Assumptions ns_refines_dict_prefix.
 
-(* the witness of path_through_dict_refuted on the patched model: ns['a']={'b':1}; ns['a.b'] reads 1 *)
-Example fixed_repairs_witness :
-  map fst (run_fixed clash_names [] [OSet s_a (VDict [(s_b, VInt 1)]); OGet (s_a ++ DOT :: s_b)])
-  = [OutUnit; OutVal (VInt 1)] /\
-  fx_ok [OSet s_a (VDict [(s_b, VInt 1)]); OGet (s_a ++ DOT :: s_b)] = true.
-Proof. vm_compute. split; reflexivity. Qed.
+Theorem hist_class_0_means_prefix :
+  forall clash ops,
+    hist_class clash ops = 0%N <->
+    snd (run_model clash [] ops) = false /\
+    forallb (wf_op clash) ops = true /\ forallb core_op ops = true.
+Proof. exact hist_class_0_iff. Qed.
+Print Assumptions hist_class_0_means_prefix.
+
+Theorem step_commutes_prefix :
+  forall clash root o,
+    wf_val clash (VNs root) = true -> wf_op clash o = true -> core_op o = true ->
+    forall ou r, step_model clash root o = (ou, r, false) ->
+      step_spec (abs_d root) o = (unmark_out ou, abs_d r) /\ wf_val clash (VNs r) = true.
+Proof. exact NsProofs.step_commutes. Qed.
+Print Assumptions step_commutes_prefix.
+
+Theorem ns_refines_dict_from_prefix :
+  forall clash ops root,
+    wf_val clash (VNs root) = true ->
+    forallb (wf_op clash) ops = true -> forallb core_op ops = true ->
+    snd (run_model clash root ops) = false ->
+    Forall2 rel_out (fst (run_model clash root ops)) (run_spec (abs_d root) ops).
+Proof. exact run_refines. Qed.
+Print Assumptions ns_refines_dict_from_prefix.
+
+(* before the repair: ns['a.rest'] is ns['a']['rest'] when ns['a'] is a Namespace and fails when ns['a'] is absent or a
+   non-dict leaf; when ns['a'] is a dict the two differed *)
+Theorem dotted_eq_stepwise_prefix :
+  forall clash a rest root,
+    mem_N DOT a = false -> mem_N SPACE a = false -> is_empty a = false ->
+    match ns_getitem clash a root with
+    | Ok (VNs d') => ns_getitem clash (a ++ DOT :: rest) root = ns_getitem clash rest d'
+    | Ok (VDict _) => True
+    | _ => ns_getitem clash (a ++ DOT :: rest) root = Fail
+    end.
+Proof. exact dotted_eq_stepwise_proof. Qed.
+Print Assumptions dotted_eq_stepwise_prefix.
+
+Theorem stepwise_eq_dotted_prefix :
+  forall clash a rest root,
+    seg_ok a = true -> forallb seg_ok rest = true ->
+    meets_dict clash (join_segs a rest) root = false ->
+    ns_get_steps clash (join_segs a rest) root = ns_getitem clash (join_segs a rest) root.
+Proof. exact stepwise_eq_dotted_proof. Qed.
+Print Assumptions stepwise_eq_dotted_prefix.
+
+Theorem clash_names_transparent_prefix :
+  forall c1 c2 ops,
+    hist_class c1 ops = 0%N -> hist_class c2 ops = 0%N ->
+    Forall2 (fun m1 m2 : out * alist =>
+               unmark_out (fst m1) = unmark_out (fst m2) /\ abs_d (snd m1) = abs_d (snd m2))
+            (fst (run_model c1 [] ops)) (fst (run_model c2 [] ops)).
+Proof. exact clash_names_transparent_proof. Qed.
+Print Assumptions clash_names_transparent_prefix.
+
+Theorem failed_op_changes_nothing_prefix :
+  forall clash root o r md,
+    match o with OUpdNs _ _ _ => False | _ => True end ->
+    step_model clash root o = (OutFail, r, md) -> r = root.
+Proof. exact failed_op_changes_nothing_proof. Qed.
+Print Assumptions failed_op_changes_nothing_prefix.
+
+(* REGRESSION WITNESS of the repaired defect: on the model of the old code, outside the guard, the refinement FAILED —
+   ns['a'] = {'b': 1}; ns['a.b'] — the nested dictionary answers 1, the old Namespace raised *)
+Lemma path_through_dict_refuted :
+  exists ops,
+    forallb (wf_op clash_names) ops = true /\ forallb core_op ops = true /\
+    hist_class clash_names ops = 1%N /\
+    ~ Forall2 rel_out (fst (run_model clash_names [] ops)) (run_spec [] ops).
+Proof.
+  exists [OSet s_a (VDict [(s_b, VInt 1)]); OGet s_a_b].
+  repeat split; try (vm_compute; reflexivity).
+  intros H. inversion H as [|? ? ? ? _ H2]; subst. inversion H2 as [|? ? ? ? [H3 _] _]; subst.
+  vm_compute in H3. discriminate H3.
+Qed.
+Print Assumptions path_through_dict_refuted.
